@@ -440,6 +440,73 @@ func TestDepth1Exhaustive(t *testing.T) {
 	}
 }
 
+// TestDepth2Regions enumerates every two-level chain over a reduced set of
+// offsets and sizes for the operations that write a whole region (Fill, Clear,
+// and a Print of a text longer than any window): the clip rectangle is the
+// intersection of both windows and the screen.
+func TestDepth2Regions(t *testing.T) {
+	if harness.ReplayPath() != "" {
+		t.Skip()
+	}
+	const sub = "depth2-regions"
+	x, err := newSession(4, 3)
+	if err != nil {
+		t.Fatal(err)
+	}
+	defer x.s.Close(5 * time.Second)
+	offs := []int{-2, -1, 0, 1, 2}
+	szs := []int{-1, 1, 3, 9}
+	if harness.Thorough() {
+		offs = []int{-3, -2, -1, 0, 1, 2, 3}
+		szs = []int{-1, 0, 1, 2, 3, 4, 9}
+	}
+	region := []Call{{K: "fill"}, {K: "clear"}, {K: "wrap", Text: []string{"a", "b", "c", "d", "e", "a", "b", "c", "d", "e", "a", "b", "c", "d", "e"}}}
+	idx, fails := 0, 0
+	for _, c1 := range offs {
+		for _, r1 := range offs {
+			for _, w1 := range szs {
+				for _, h1 := range szs {
+					idx++
+					if !harness.Mine(idx) || fails > 3 {
+						continue
+					}
+					for _, c2 := range offs {
+						for _, r2 := range offs {
+							for _, w2 := range szs {
+								for _, h2 := range szs {
+									for ci, call := range region {
+										c := Case{SCols: 4, SRows: 3, Chain: []Win{{c1, r1, w1, h1, false}, {c2, r2, w2, h2, false}}, Call: call}
+										harness.R.Eval(sub)
+										if nontrivial(c) {
+											harness.R.Nontrivial(sub, c)
+										}
+										if c1+c2 <= 0 && r1+r2 <= 0 && (c1 > 0 || r1 > 0) && (w2 < 0 || w2 >= 9) && (h2 < 0 || h2 >= 9) {
+											harness.R.Label(sub, "the child's own rectangle covers the screen, its parent does not")
+										}
+										if idx%97 == 1 && ci == 1 && c2 == -1 && w2 == -1 {
+											harness.R.Sample(sub, c)
+										}
+										if msg := x.run(c); msg != "" {
+											fails++
+											harness.Fail(t, sub, msg, c)
+											x.s.Drain()
+											break
+										}
+									}
+								}
+							}
+						}
+						x.s.Drain()
+					}
+				}
+			}
+		}
+	}
+	if fails == 0 {
+		harness.R.Exhaustive(sub)
+	}
+}
+
 func TestChains(t *testing.T) {
 	const sub = "chains"
 	x, err := newSession(6, 4)
@@ -453,10 +520,31 @@ func TestChains(t *testing.T) {
 		c := Case{SCols: 6, SRows: 4}
 		depth := rapid.IntRange(1, 4).Draw(rt, "depth")
 		for i := 0; i < depth; i++ {
-			c.Chain = append(c.Chain, Win{Col: rapid.IntRange(-2, 6).Draw(rt, "col"), Row: rapid.IntRange(-2, 5).Draw(rt, "row"),
-				W: rapid.SampledFrom([]int{-1, 0, 1, 2, 3, 4, 6, 9}).Draw(rt, "w"), H: rapid.SampledFrom([]int{-1, 0, 1, 2, 3, 4, 7}).Draw(rt, "h"), Literal: rapid.IntRange(0, 3).Draw(rt, "lit") == 0})
+			w := Win{Col: rapid.IntRange(-2, 6).Draw(rt, "col"), Row: rapid.IntRange(-2, 5).Draw(rt, "row"),
+				W: rapid.SampledFrom([]int{-1, 0, 1, 2, 3, 4, 6, 9}).Draw(rt, "w"), H: rapid.SampledFrom([]int{-1, 0, 1, 2, 3, 4, 7}).Draw(rt, "h"), Literal: rapid.IntRange(0, 3).Draw(rt, "lit") == 0}
+			if i > 0 && rapid.IntRange(0, 2).Draw(rt, "cancel") == 1 {
+				// a child that reaches back over its parent's origin: its
+				// own rectangle can cover cells (even the whole screen) which
+				// its ancestors clip away
+				harness.R.Label(sub, "child offset cancels its parent's")
+				prev := c.Chain[i-1]
+				w.Col = -prev.Col + rapid.SampledFrom([]int{-1, 0, 0, 1}).Draw(rt, "dcol")
+				w.Row = -prev.Row + rapid.SampledFrom([]int{-1, 0, 0, 1}).Draw(rt, "drow")
+				w.W = rapid.SampledFrom([]int{9, -1, -1, 12}).Draw(rt, "bigw")
+				w.H = rapid.SampledFrom([]int{7, -1, -1, 12}).Draw(rt, "bigh")
+			}
+			c.Chain = append(c.Chain, w)
 		}
-		c.Call = rapid.SampledFrom(cs).Draw(rt, "call")
+		// choose the kind of call first: the two region operations are 2 of
+		// the ~250 calls and would otherwise hardly ever be drawn
+		kind := rapid.SampledFrom([]string{"setcell", "fill", "clear", "setstyle", "print", "wrap", "clear", "println", "printtruncate", "fill"}).Draw(rt, "kind")
+		var ofKind []Call
+		for _, call := range cs {
+			if call.K == kind {
+				ofKind = append(ofKind, call)
+			}
+		}
+		c.Call = rapid.SampledFrom(ofKind).Draw(rt, "call")
 		if c.Call.K == "setcell" || c.Call.K == "setstyle" {
 			c.Call.Col, c.Call.Row = rapid.IntRange(-2, 7).Draw(rt, "ccol"), rapid.IntRange(-2, 5).Draw(rt, "crow")
 		}
@@ -482,5 +570,5 @@ func TestReplay(t *testing.T) {
 		defer x.s.Close(5 * time.Second)
 		return x.run(c)
 	})
-	harness.ReplayAll(t, map[string]harness.Runner{"depth1": r, "chains": r})
+	harness.ReplayAll(t, map[string]harness.Runner{"depth1": r, "chains": r, "depth2-regions": r})
 }
